@@ -5,6 +5,7 @@ CONSTANTS
   MaxRogue = 1
   FixUnknown = TRUE
   CtxWriteCloses = FALSE
+  OfferWatchesClosed = TRUE
 SPECIFICATION FairSpec
 INVARIANTS TypeOK NoSelfClose ClosedOnlyAfterFault OwnReply TagsDistinct NeverNotag NeverCrashes OkHasReply
 PROPERTIES AllReturnAfterDown
